@@ -7,9 +7,9 @@ C18 – `ArenaVector<T>`: operation language and the *textbook* meaning of every
   empty vector) is a no-op on both sides;
 * a step that the model answers with `Err.oom` (`ok = false`) leaves the list unchanged;
 * `Step.env s` models every other client of the same arena and the allocation oracle: the arena state is
-  replaced by an ARBITRARY state `s` with `s.mallocMax < 2^32` (it may lower `mallocMax` to 0, exhaust the
-  blocks, fill or empty the reusable slots ...; no arena function changes `mallocMax`, see
-  `Lemmas/C18Vector.lean : *_mallocMax`); a state with `mallocMax ≥ 2^32` is ignored.
+  replaced by an ARBITRARY state `s` (any `mallocMax`, any blocks/slots: the oracle may grant or refuse anything).
+  (The model follows the repaired code: the capacity is clamped to `0xFFFFFFFF`, so no bound on the size of a
+  granted allocation is needed.)
 Core-only imports.
 -/
 import AsmjitVerif.Model.Vector
@@ -80,7 +80,7 @@ def modelStep (itemSize : Nat) (a : State) (v : Vec) (op : VOp) : Option (State 
 inductive Step where
   /-- an operation on the vector -/
   | vec (op : VOp)
-  /-- anything the other clients of the arena do: the arena becomes `s` (accepted iff `s.mallocMax < 2^32`) -/
+  /-- anything the other clients of the arena do: the arena becomes `s` (any state) -/
   | env (s : State)
   deriving Repr, Inhabited
 
@@ -88,7 +88,7 @@ inductive Step where
 def stepAll (itemSize : Nat) (c : State × Vec × List Nat) (st : Step) : Option (State × Vec × List Nat) :=
   match st with
   | .vec op => (modelStep itemSize c.1 c.2.1 op).map fun r => (r.1, r.2.1, specStep c.2.2 op r.2.2)
-  | .env s => if s.mallocMax < u32 then some (s, c.2.1, c.2.2) else some c
+  | .env s => some (s, c.2.1, c.2.2)
 
 def run (itemSize : Nat) (c : State × Vec × List Nat) : List Step → Option (State × Vec × List Nat)
   | [] => some c
